@@ -184,15 +184,22 @@ def _unlimit_stack():
         pass
 
 def run_batch(binary, lines, timeout=600):
-    """Feeds the lines to one service process; restarts after a crash; returns one Ans per line."""
+    """Feeds the lines to one service process; restarts after a crash or a hang; returns one Ans per line.
+    After the first hang the remaining lines get a short time limit, after the third the rest is given up
+    (answered 'timeout'): a hanging implementation must not stall the whole check."""
     out = []
     i = 0
     n = len(lines)
+    hangs = 0
     while i < n:
         chunk = lines[i:]
+        if hangs >= 3:
+            out.extend(Ans('timeout') for _ in chunk)
+            break
+        tmo = timeout if hangs == 0 else min(timeout, 120)
         try:
             p = subprocess.run([binary], input='\n'.join(chunk) + '\n', stdout=subprocess.PIPE, stderr=subprocess.DEVNULL,
-                               text=True, timeout=timeout, preexec_fn=_unlimit_stack)
+                               text=True, timeout=tmo, preexec_fn=_unlimit_stack)
             got = p.stdout.split('\n')
             if got and got[-1] == '': got.pop()
             crashed = 'crash rc=%s' % p.returncode
@@ -202,6 +209,7 @@ def run_batch(binary, lines, timeout=600):
             got = so.split('\n')
             if got: got.pop()  # possibly partial last line
             crashed = 'timeout'
+            hangs += 1
         got = got[:len(chunk)]
         out.extend(Ans(g) for g in got)
         i += len(got)
